@@ -14,7 +14,7 @@ TRACE_MODULE = 'C17Trace.tla'
 RULE = ('stacks of depth 0..6 (one of depth 100) over {null, integers at 0, +-1, +-2^63 and neighbours, +-2^255, 2^256-1, -2^256, cells, '
         'slices (fresh and partly consumed), builders, tuples of length 0, 1, 2, 3, 5 nested up to 3 deep, continuations quit / quit_exc / '
         'pushint / again / until / repeat / while_cond / while_body / std / envelope}; each serialised twice by the library and parsed '
-        'from the specification\'s encoding; distinct = distinct stacks')
+        'from the specification\'s encoding; edit histories: serialise, change a value nested in a tuple in place, serialise the same objects again; distinct = distinct stacks')
 ASSUMPTIONS = ['TonVm is a transcription of vm_stack / VmStackValue / VmTuple / VmTupleRef / VmCont (control data only in its empty form)',
                'a slice is written as the canonical VmCellSlice (its remaining data as the cell, window = everything)',
                'library objects are normalised to abstract values by kind (glue); equality is decided by TLC']
@@ -273,6 +273,55 @@ def generate(tier, seed, ctx):
         except Exception as e:
             rec['err'] = type(e).__name__
         out.append(rec)
+    # edit histories: serialise, change a value NESTED inside a tuple in place (append to an inner tuple, store into an inner
+    # builder), serialise the same caller objects again: the second cell must be the encoding of the values as they are now
+    import copy, json
+
+    def targets(v, path, depth):
+        if v['k'] == 'tuple':
+            for i, x in enumerate(v['v']):
+                if depth >= 0 and x['k'] == 'tuple':
+                    yield path + [i], 'tuple'
+                if x['k'] == 'builder' and len(x['t']['b']) < 1000:
+                    yield path + [i], 'builder'
+                yield from targets(x, path + [i], depth + 1)
+
+    fixed = [[{'k': 'tuple', 'v': [{'k': 'int', 'v': big(1)}, {'k': 'tuple', 'v': [{'k': 'int', 'v': big(2)}, {'k': 'int', 'v': big(3)}]}]}],
+             [{'k': 'null'}, {'k': 'tuple', 'v': [{'k': 'builder', 't': {'b': [1, 0, 1], 'r': []}}, {'k': 'int', 'v': big(5)}]}],
+             [{'k': 'tuple', 'v': [{'k': 'tuple', 'v': [{'k': 'tuple', 'v': []}]}]}]]
+    done = 0
+    for val in fixed + stacks:
+        if done >= (40 if q else 600) or any(v['k'] == 'slicewin' for v in val):
+            continue
+        cand = [(i, p, kind) for i, v in enumerate(val) for p, kind in targets(v, [], 0)]
+        if not cand:
+            continue
+        i, path, kind = rng.choice(cand)
+        val2 = copy.deepcopy(val)
+        BUDGET[0] = 200000
+        rec = {'op': 'vm_ser', 'val': val2, 'tags': ['edited_in_place_between_serialisations']}
+        try:
+            data = [to_lib(v) for v in val]
+            VmStack.serialize(data)
+            node, obj = val2[i], data[i]
+            for j in path:
+                node, obj = node['v'][j], obj.list[j]
+            if kind == 'tuple':
+                node['v'].append({'k': 'int', 'v': big(4)})
+                obj.list.append(4)
+            else:
+                node['t']['b'].append(1)
+                obj.store_bit(1)
+            c1 = VmStack.serialize(data)
+            after = [of_lib(x) for x in data]
+            c2 = VmStack.serialize(data)
+            rec['out'] = {'tree': tlbkit.cell_tree(c1), 'tree2': tlbkit.cell_tree(c2), 'after': after}
+        except RecursionError:
+            raise
+        except Exception as e:
+            rec['out'] = {'err': type(e).__name__}
+        out.append(rec)
+        done += 1
     return out
 
 
